@@ -30,6 +30,8 @@ type encRec struct {
 var (
 	lastEnc *encRec
 	lastDec *dec
+	// thorough tier: many more cases, most of them with smaller frames (bounds the case files)
+	thorough bool
 )
 
 type enc struct {
@@ -252,6 +254,10 @@ func genFrame(r *hx.Rand, max, _ int) codec.Frame {
 	}
 	f := make(codec.Frame, n)
 	total := 0
+	limit := 24000
+	if thorough && r.Intn(8) != 0 {
+		limit = 3000
+	}
 	for i := range f {
 		var s int
 		switch r.Intn(9) {
@@ -286,7 +292,7 @@ func genFrame(r *hx.Rand, max, _ int) codec.Frame {
 		if s > 12*c+8 { // keep the packet count per OBU moderate (the model is cubic-free but not fast)
 			s = r.Range(1, 12*c+8)
 		}
-		if total+s > 24000 {
+		if total+s > limit {
 			s = r.Range(1, 16)
 		}
 		total += s
@@ -512,6 +518,8 @@ func staleWitness(ctx *hx.Ctx, max int) {
 func main() {
 	ctx := hx.Start("av1")
 	defer ctx.Finish()
+	thorough = ctx.Thorough
+	ctx.Sample("rtpav1: temporal units of 1..10 OBUs, sizes centred on the packet capacity, LEB128 boundaries and the Y/Z threshold")
 	if lines := ctx.ReplayLines(); lines != nil {
 		for _, l := range lines {
 			v := hx.ParseLine(l)
